@@ -33,14 +33,8 @@ def r13_1(ctx, rc):
     if len(enums) != 1:
         raise AnalysisError('comparison enum not identified')
     members = set(enums[0].class_attrs)
-    D = _ex(ctx, 'file_comparison_result')
-    lits = {}
-    for n in ast.walk(D.node):
-        if isinstance(n, ast.If) and isinstance(n.test, ast.Compare) and \
-                len(n.test.ops) == 1 and isinstance(
-                    n.test.ops[0], ast.Eq) and isinstance(
-                        n.test.comparators[0], ast.Constant):
-            lits[n.test.comparators[0].value] = n
+    D, table, fall = _dispatch(ctx)
+    lits = table
     key = 'dispatch literals == enum members'
     if set(lits) != members:
         rc.violation('mode-dispatch | ' + D.qualname,
@@ -48,11 +42,8 @@ def r13_1(ctx, rc):
                      '%s' % (sorted(lits), sorted(members)), D.file, key=key)
     else:
         rc.ok({'members': sorted(members)}, key=key)
-    last = D.node.body[-1]
-    while isinstance(last, ast.If) and last.orelse:
-        last = last.orelse[-1]
     key = 'unknown mode raises'
-    if isinstance(last, ast.Raise):
+    if fall and all(isinstance(x, ast.Raise) for x in fall):
         rc.ok({'fallthrough': 'raise'}, key=key)
     else:
         rc.violation('mode-fallthrough | ' + D.qualname,
@@ -109,17 +100,43 @@ def r13_1(ctx, rc):
                      'to the comparison', Rd.file, key=key)
 
 
-def _impl_for(ctx, lit):
+def _dispatch(ctx):
+    """literal -> statements executed for it; plus the fall-through."""
+    from ..astpaths import cond_paths, eq_const_fact
     D = _ex(ctx, 'file_comparison_result')
-    for n in ast.walk(D.node):
-        if isinstance(n, ast.If) and isinstance(n.test, ast.Compare) and \
-                isinstance(n.test.comparators[0], ast.Constant) and \
-                n.test.comparators[0].value == lit:
-            for c in ast.walk(ast.Module(body=n.body, type_ignores=[])):
-                if isinstance(c, ast.Call):
-                    for g in ctx.prog.resolve_call(c, D):
-                        if isinstance(g, Func):
-                            return g
+    table = {}
+    fall = []
+    for conds, st in cond_paths(D.node.body):
+        lits = []
+        allneg = bool(conds)
+        for t, pol in conds:
+            e = eq_const_fact(t)
+            if e is None or not isinstance(e[1], str):
+                allneg = False
+                continue
+            holds = pol != e[2]
+            if holds:
+                lits.append(e[1])
+                allneg = False
+        for l in lits:
+            table.setdefault(l, []).append(st)
+        if allneg:
+            fall.append(st)
+        for t, pol in conds:
+            e = eq_const_fact(t)
+            if e is not None and isinstance(e[1], str):
+                table.setdefault(e[1], [])
+    return D, table, fall
+
+
+def _impl_for(ctx, lit):
+    D, table, fall = _dispatch(ctx)
+    for st in table.get(lit, []):
+        for c in ast.walk(st):
+            if isinstance(c, ast.Call):
+                for g in ctx.prog.resolve_call(c, D):
+                    if isinstance(g, Func):
+                        return g
     raise AnalysisError('implementation of mode %s not found' % lit)
 
 
